@@ -57,7 +57,7 @@ def generator(ir: ExpressionIR, options: dict[str, int | float | npt.DTypeLike])
     d["original_coefficient_positions"] = f"[{originals}]"
 
     # TODO: points_init
-    d["points"] = f"[{', '.join(str(p) for p in points.flatten())}]"
+    d["points"] = f"[{', '.join(str(float(p)) for p in points.flatten())}]"
 
     # TODO: value_shape_init
     shape = ", ".join(str(i) for i in ir.expression.shape)
